@@ -452,6 +452,79 @@ fn alias_axis_query(out: &mut JobOut) {
     }
 }
 
+/// Every way to obtain a non-extrapolating interpolator: strategy from `new()`, from
+/// `Default::default()`, with `extrapolate(false)` spelled out, toggled on and off again; the
+/// interpolator from the builder and from `new_unchecked` (1-D, and 2-D on non-square grids in
+/// both orientations).
+fn constructors(out: &mut JobOut) {
+    use ndarray::{Array1 as A1, Array2 as A2};
+    use ndarray_interp::interp1d::cubic_spline::CubicSpline;
+    use ndarray_interp::interp1d::{Interp1D, Interp1DBuilder, Linear};
+    use ndarray_interp::interp2d::{Bilinear, Interp2D, Interp2DBuilder};
+    let x: Vec<f64> = vec![-1.5, 0.0, 0.5, 2.0, 7.0];
+    let ys: [Vec<f64>; 3] = [vec![10.0, 11.0, 13.0], vec![-4.0, -3.0, 1.0, 2.0, 2.5, 9.0, 12.0], vec![0.25, 0.5, 1.0, 3.0, 3.5]];
+    let probes = |lo: f64, hi: f64| -> Vec<(f64, bool)> {
+        vec![(lo, true), (hi, true), (lo.next_down(), false), (hi.next_up(), false), (lo - 1.0, false), (hi + 1.0, false), ((lo + hi) / 2.0, true), (f64::INFINITY, false), (f64::NEG_INFINITY, false), (lo - 1e9, false), (hi + 1e9, false)]
+    };
+    let n = x.len();
+    let d1: A1<f64> = (0..n).map(|i| i as f64 * 0.5).collect();
+    let xa = A1::from(x.clone());
+    macro_rules! one_d {
+        ($name:expr, $ip:expr) => {{
+            match catch(|| $ip) {
+                Ok(Ok(ip)) => {
+                    out.states += 1;
+                    for (q, inside) in probes(x[0], x[n - 1]) {
+                        let got = match catch(|| ip.interp_scalar(q)) { Ok(Ok(_)) => "Ok".to_string(), Ok(Err(_)) => "Err(OutOfBounds)".to_string(), Err(_) => "panic".to_string() };
+                        verdict(out, "constructors", $name, "interp_scalar", format!("q={q:e}"), inside, got, true, &|| Json::obj(vec![("x", Json::f64s(&x)), ("query", Json::Num(q))]));
+                    }
+                }
+                other => out.violate(format!("constructors:{}:build", $name), format!("{}: could not be built: {:?}", $name, other.map(|r| r.map(|_| ()))), Json::Null),
+            }
+        }};
+    }
+    one_d!("Linear::new()", Interp1DBuilder::new(d1.clone()).x(xa.clone()).strategy(Linear::new()).build());
+    one_d!("Linear::default()", Interp1DBuilder::new(d1.clone()).x(xa.clone()).strategy(Linear::default()).build());
+    one_d!("builder default strategy", Interp1DBuilder::new(d1.clone()).x(xa.clone()).build());
+    one_d!("Linear::new().extrapolate(false)", Interp1DBuilder::new(d1.clone()).x(xa.clone()).strategy(Linear::new().extrapolate(false)).build());
+    one_d!("Linear::new().extrapolate(true).extrapolate(false)", Interp1DBuilder::new(d1.clone()).x(xa.clone()).strategy(Linear::new().extrapolate(true).extrapolate(false)).build());
+    one_d!("CubicSpline::new()", Interp1DBuilder::new(d1.clone()).x(xa.clone()).strategy(CubicSpline::new()).build());
+    one_d!("CubicSpline::default()", Interp1DBuilder::new(d1.clone()).x(xa.clone()).strategy(CubicSpline::default()).build());
+    one_d!("CubicSpline::new().extrapolate(true).extrapolate(false)", Interp1DBuilder::new(d1.clone()).x(xa.clone()).strategy(CubicSpline::new().extrapolate(true).extrapolate(false)).build());
+    one_d!("Interp1D::new_unchecked(Linear::new())", Ok::<_, ndarray_interp::BuilderError>(Interp1D::new_unchecked(xa.clone(), d1.clone(), Linear::new())));
+    one_d!("Interp1D::new_unchecked(Linear::default())", Ok::<_, ndarray_interp::BuilderError>(Interp1D::new_unchecked(xa.clone(), d1.clone(), Linear::default())));
+    for y in &ys {
+        for transposed in [false, true] {
+            let (gx, gy) = if transposed { (y.clone(), x.clone()) } else { (x.clone(), y.clone()) };
+            let (gxa, gya) = (A1::from(gx.clone()), A1::from(gy.clone()));
+            let d2 = A2::from_shape_fn((gx.len(), gy.len()), |(i, j)| (i * 3 + j) as f64 * 0.25);
+            macro_rules! two_d {
+                ($name:expr, $ip:expr) => {{
+                    match catch(|| $ip) {
+                        Ok(Ok(ip)) => {
+                            out.states += 1;
+                            let (px, py) = (probes(gx[0], gx[gx.len() - 1]), probes(gy[0], gy[gy.len() - 1]));
+                            for (qx, inx) in &px {
+                                for (qy, iny) in &py {
+                                    let got = match catch(|| ip.interp_scalar(*qx, *qy)) { Ok(Ok(_)) => "Ok".to_string(), Ok(Err(_)) => "Err(OutOfBounds)".to_string(), Err(_) => "panic".to_string() };
+                                    verdict(out, &format!("constructors:{}x{}", gx.len(), gy.len()), $name, "interp_scalar", format!("q=({qx:e},{qy:e})"), *inx && *iny, got, true, &|| Json::obj(vec![("x", Json::f64s(&gx)), ("y", Json::f64s(&gy)), ("query", Json::f64s(&[*qx, *qy]))]));
+                                }
+                            }
+                        }
+                        other => out.violate(format!("constructors:{}:build", $name), format!("{}: could not be built: {:?}", $name, other.map(|r| r.map(|_| ()))), Json::Null),
+                    }
+                }};
+            }
+            two_d!("Bilinear::new()", Interp2DBuilder::new(d2.clone()).x(gxa.clone()).y(gya.clone()).strategy(Bilinear::new()).build());
+            two_d!("Bilinear::default()", Interp2DBuilder::new(d2.clone()).x(gxa.clone()).y(gya.clone()).strategy(Bilinear::default()).build());
+            two_d!("builder default strategy (2-D)", Interp2DBuilder::new(d2.clone()).x(gxa.clone()).y(gya.clone()).build());
+            two_d!("Bilinear::new().extrapolate(true).extrapolate(false)", Interp2DBuilder::new(d2.clone()).x(gxa.clone()).y(gya.clone()).strategy(Bilinear::new().extrapolate(true).extrapolate(false)).build());
+            two_d!("Interp2D::new_unchecked(Bilinear::new())", Ok::<_, ndarray_interp::BuilderError>(Interp2D::new_unchecked(gxa.clone(), gya.clone(), d2.clone(), Bilinear::new())));
+            two_d!("Interp2D::new_unchecked(Bilinear::default())", Ok::<_, ndarray_interp::BuilderError>(Interp2D::new_unchecked(gxa.clone(), gya.clone(), d2.clone(), Bilinear::default())));
+        }
+    }
+}
+
 fn body(ctx: &Ctx) -> (Summary, Meta) {
     // the former thorough bounds cost 3 s: they are the quick tier now; thorough goes further
     let quick = false;
@@ -496,11 +569,12 @@ fn body(ctx: &Ctx) -> (Summary, Meta) {
         let mut out = JobOut::default();
         int_axes(&mut out);
         alias_axis_query(&mut out);
+        constructors(&mut out);
         out.sample = Some(Json::str("i64 / i32 / u32 / u8 axes incl. ends beyond 2^53 and at the type limits; queries that are views into the axis buffer"));
         out
     }));
     let meta = Meta {
-        rule: "every axis x {Linear, CubicSpline NotAKnot/Natural/Periodic/Individual, Bilinear on every ordered axis pair} x every entry point (scalar, interp, interp_into, interp_array and interp_array_into with static ranks 0..4 and dynamic rank) x single queries {ends, 1 and 2 ulp inside/outside, mid, +-inf, NaN, +-MAX, far} and batches of 8 shapes with one offending element {below, above, NaN, +inf} at every position and two at every pair; oracle: Ok iff every element lies in the closed range, else Err(OutOfBounds), never a panic. Plus integer axes (i64, i32, u32, u8; ends beyond 2^53 and at the limits of the type, queries one and two below / above the ends) and queries that are views into the buffer of the axis. Non-trivial = expected Err, or query within 2 ulp of a range end.".into(),
+        rule: "every axis x {Linear, CubicSpline NotAKnot/Natural/Periodic/Individual, Bilinear on every ordered axis pair} x every entry point (scalar, interp, interp_into, interp_array and interp_array_into with static ranks 0..4 and dynamic rank) x single queries {ends, 1 and 2 ulp inside/outside, mid, +-inf, NaN, +-MAX, far} and batches of 8 shapes with one offending element {below, above, NaN, +inf} at every position and two at every pair; oracle: Ok iff every element lies in the closed range, else Err(OutOfBounds), never a panic. Plus integer axes (i64, i32, u32, u8; ends beyond 2^53 and at the limits of the type, queries one and two below / above the ends) and queries that are views into the buffer of the axis; every way to obtain a non-extrapolating interpolator (strategy from new() / Default::default() / extrapolate(false) / toggled, interpolator from the builder and from new_unchecked, non-square grids in both orientations). Non-trivial = expected Err, or query within 2 ulp of a range end.".into(),
         bounds: format!("{njobs} (type, axis or grid) jobs; tier {}", ctx.tier.name()),
         assumptions: vec![],
         extra: vec![],
